@@ -149,10 +149,14 @@ pub struct Case {
     /// 4: instead, the rightful spender spent the whole allowance on the very ledger it expires at; 5, 6: some ledgers earlier
     #[serde(default)]
     pub grantor_allowance_revoked: u8,
+    /// wherever the call states a gas / fee token, that token is one anybody could deploy: its `transfer` asks nobody for
+    /// authorisation (whoever relies on the token to authenticate the payer authenticates nobody)
+    #[serde(default)]
+    pub lax_gas_token: bool,
 }
 
 fn blank() -> Case {
-    Case { ep: EPS[0], principal: PRINCIPALS[0], with_allowance_for_counterparty: false, amount: 1, without_grantor_allowance: false, named_is_token_owner: false, grantor_allowance_expired: false, windows_open: false, negative_amount: false, sweep: None, grantor_allowance_revoked: 0 }
+    Case { ep: EPS[0], principal: PRINCIPALS[0], with_allowance_for_counterparty: false, amount: 1, without_grantor_allowance: false, named_is_token_owner: false, grantor_allowance_expired: false, windows_open: false, negative_amount: false, sweep: None, grantor_allowance_revoked: 0, lax_gas_token: false }
 }
 
 struct W<'a> {
@@ -166,6 +170,8 @@ struct W<'a> {
     its_token_id: [u8; 32],
     asset2: Address,
     owner_of_called: Address,
+    /// the token stated as gas / fee token
+    gas_token: Address,
 }
 
 const ITS_SALT: [u8; 32] = [5; 32];
@@ -277,6 +283,8 @@ fn build<'a>(case: &Case, named_is_probe: bool) -> W<'a> {
     let asset2 = env.register_stellar_asset_contract_v2(s.pool[STRANGER].clone()).address();
     soroban_sdk::token::StellarAssetClient::new(&env, &asset2).mint(&named, &1000);
     s.its.register_canonical_token(&asset2);
+    // (the service holds some of it, as it would after other users' outbound transfers)
+    soroban_sdk::token::StellarAssetClient::new(&env, &asset2).mint(&s.its.address, &1000);
     // a message approved for `named` as destination
     let m = Message {
         source_chain: sstr(&env, "ethereum"),
@@ -304,7 +312,11 @@ fn build<'a>(case: &Case, named_is_probe: bool) -> W<'a> {
         Ep::OpsExecute => s.pool[OPS_OWNER].clone(),
         _ => s.pool[ITS_OWNER].clone(),
     };
-    W { s, named, counterparty, probe, target, example, its_token, its_token_id: id, asset2, owner_of_called }
+    // (only where the named address is more than the payer - sender of a transfer, deployer, sender of a call: where it is
+    // only the payer, paying in a token without value debits nobody, which the statement does not forbid)
+    let lax = case.lax_gas_token && matches!(case.ep, Ep::ItsTransfer | Ep::ItsTransferCanonical | Ep::ItsDeployRemote | Ep::ExampleSend);
+    let gas_token = if lax { env.register(crate::probes::LaxToken, ()) } else { s.asset.clone() };
+    W { s, named, counterparty, probe, target, example, its_token, its_token_id: id, asset2, owner_of_called, gas_token }
 }
 
 /// (contract, function, args) of the studied call; `alt` = second argument list
@@ -321,7 +333,7 @@ fn invocation_with(w: &W, ep: Ep, amount: i128, alt: bool, n: Address, c: Addres
     let s = &w.s;
     let a: i128 = if alt { amount + 1 } else { amount };
     let exp = env.ledger().sequence() + 100;
-    let gas = Token { address: s.asset.clone(), amount: a };
+    let gas = Token { address: w.gas_token.clone(), amount: a };
     let v = |x: SVec<Val>| x;
     match ep {
         Ep::TokApprove => (s.token.address.clone(), "approve", v((n, c, a, exp).into_val(env))),
@@ -357,14 +369,14 @@ fn invocation_with(w: &W, ep: Ep, amount: i128, alt: bool, n: Address, c: Addres
         Ep::ItsTransfer => (
             s.its.address.clone(),
             "interchain_transfer",
-            v((n, BytesN::from_array(env, &w.its_token_id), sstr(env, "ethereum"), Bytes::from_slice(env, b"dest"), a, None::<Bytes>, Token { address: s.asset.clone(), amount: 1 }).into_val(env)),
+            v((n, BytesN::from_array(env, &w.its_token_id), sstr(env, "ethereum"), Bytes::from_slice(env, b"dest"), a, None::<Bytes>, Token { address: w.gas_token.clone(), amount: 1 }).into_val(env)),
         ),
         Ep::ItsTransferCanonical => {
             let cid = s.its.register_canonical_token_id_of(&w.asset2);
             (
                 s.its.address.clone(),
                 "interchain_transfer",
-                v((n, cid, sstr(env, "ethereum"), Bytes::from_slice(env, b"dest"), a, None::<Bytes>, Token { address: s.asset.clone(), amount: 1 }).into_val(env)),
+                v((n, cid, sstr(env, "ethereum"), Bytes::from_slice(env, b"dest"), a, None::<Bytes>, Token { address: w.gas_token.clone(), amount: 1 }).into_val(env)),
             )
         }
         Ep::ItsDeployRemoteCanonical => (s.its.address.clone(), "deploy_remote_canonical_token", v((w.asset2.clone(), sstr(env, "ethereum"), n, gas).into_val(env))),
@@ -511,6 +523,7 @@ impl Property for C07 {
                 negative_amount: amount % 7 == 0,
                 sweep: None,
                 grantor_allowance_revoked: if without_grantor_allowance && amount % 2 == 1 { 1 + amount / 2 % 8 } else { 0 },
+                lax_gas_token: amount % 3 == 1,
             })
             .boxed();
         match crate::sweep::strategy(crate::sweep::Rule::Spend) {
@@ -523,27 +536,30 @@ impl Property for C07 {
         for ep in EPS {
             for p in PRINCIPALS {
                 for al in [false, true] {
-                    v.push(Case { ep, principal: p, with_allowance_for_counterparty: al, amount: 3, without_grantor_allowance: false, named_is_token_owner: false, grantor_allowance_expired: false , windows_open: false, negative_amount: false, sweep: None, grantor_allowance_revoked: 0 });
+                    v.push(Case { ep, principal: p, with_allowance_for_counterparty: al, amount: 3, without_grantor_allowance: false, named_is_token_owner: false, grantor_allowance_expired: false , windows_open: false, negative_amount: false, sweep: None, grantor_allowance_revoked: 0, lax_gas_token: false });
                 }
                 if matches!(p, Principal::Nobody | Principal::Stranger | Principal::AllAddressesAliasCalledContract | Principal::ContractNamingOther) {
-                    v.push(Case { ep, principal: p, with_allowance_for_counterparty: false, amount: 3, without_grantor_allowance: false, named_is_token_owner: false, grantor_allowance_expired: false, windows_open: true, negative_amount: false, sweep: None, grantor_allowance_revoked: 0 });
+                    v.push(Case { ep, principal: p, with_allowance_for_counterparty: false, amount: 3, without_grantor_allowance: false, named_is_token_owner: false, grantor_allowance_expired: false, windows_open: true, negative_amount: false, sweep: None, grantor_allowance_revoked: 0, lax_gas_token: false });
                 }
                 if matches!(p, Principal::Named | Principal::Counterparty) && ep.has_amount() {
-                    v.push(Case { ep, principal: p, with_allowance_for_counterparty: true, amount: 3, without_grantor_allowance: false, named_is_token_owner: false, grantor_allowance_expired: false, windows_open: false, negative_amount: true, sweep: None, grantor_allowance_revoked: 0 });
-                    v.push(Case { ep, principal: p, with_allowance_for_counterparty: true, amount: 3, without_grantor_allowance: false, named_is_token_owner: true, grantor_allowance_expired: false, windows_open: false, negative_amount: true, sweep: None, grantor_allowance_revoked: 0 });
+                    v.push(Case { ep, principal: p, with_allowance_for_counterparty: true, amount: 3, without_grantor_allowance: false, named_is_token_owner: false, grantor_allowance_expired: false, windows_open: false, negative_amount: true, sweep: None, grantor_allowance_revoked: 0, lax_gas_token: false });
+                    v.push(Case { ep, principal: p, with_allowance_for_counterparty: true, amount: 3, without_grantor_allowance: false, named_is_token_owner: true, grantor_allowance_expired: false, windows_open: false, negative_amount: true, sweep: None, grantor_allowance_revoked: 0, lax_gas_token: false });
+                }
+                if matches!(ep, Ep::ItsDeployRemote | Ep::ItsTransfer | Ep::ItsTransferCanonical | Ep::ExampleSend) {
+                    v.push(Case { ep, principal: p, with_allowance_for_counterparty: false, amount: 3, without_grantor_allowance: false, named_is_token_owner: false, grantor_allowance_expired: false, windows_open: false, negative_amount: false, sweep: None, grantor_allowance_revoked: 0, lax_gas_token: true });
                 }
                 // the named address is the token owner / a minter
-                v.push(Case { ep, principal: p, with_allowance_for_counterparty: false, amount: 3, without_grantor_allowance: false, named_is_token_owner: true, grantor_allowance_expired: false , windows_open: false, negative_amount: false, sweep: None, grantor_allowance_revoked: 0 });
+                v.push(Case { ep, principal: p, with_allowance_for_counterparty: false, amount: 3, without_grantor_allowance: false, named_is_token_owner: true, grantor_allowance_expired: false , windows_open: false, negative_amount: false, sweep: None, grantor_allowance_revoked: 0, lax_gas_token: false });
                 if matches!(ep, Ep::TokTransferFrom | Ep::TokBurnFrom) {
                     // no allowance from the grantor: nobody's authorisation is enough
                     for owner in [false, true] {
                         for expired in [false, true] {
                             // amount 500 = the whole (expired) allowance; 3 = part of it
                             for amount in [3u8, 250] {
-                                v.push(Case { ep, principal: p, with_allowance_for_counterparty: false, amount, without_grantor_allowance: true, named_is_token_owner: owner, grantor_allowance_expired: expired , windows_open: false, negative_amount: false, sweep: None, grantor_allowance_revoked: 0 });
+                                v.push(Case { ep, principal: p, with_allowance_for_counterparty: false, amount, without_grantor_allowance: true, named_is_token_owner: owner, grantor_allowance_expired: expired , windows_open: false, negative_amount: false, sweep: None, grantor_allowance_revoked: 0, lax_gas_token: false });
                                 if !expired {
                                     for r in 1..9u8 {
-                                        v.push(Case { ep, principal: p, with_allowance_for_counterparty: false, amount, without_grantor_allowance: true, named_is_token_owner: owner, grantor_allowance_expired: false, windows_open: false, negative_amount: false, sweep: None, grantor_allowance_revoked: r });
+                                        v.push(Case { ep, principal: p, with_allowance_for_counterparty: false, amount, without_grantor_allowance: true, named_is_token_owner: owner, grantor_allowance_expired: false, windows_open: false, negative_amount: false, sweep: None, grantor_allowance_revoked: r, lax_gas_token: false });
                                     }
                                 }
                             }
